@@ -70,28 +70,32 @@ def run_verus_unit(pid, step, tier):
 _built = {}
 
 
-def harness_bin(features_default=True):
-    key = 'd' if features_default else 'n'
+def harness_bin(features_default=True, profile='release'):
+    """profile 'dev' = the same harness and library built without optimisation (largest stack frames)."""
+    key = ('d' if features_default else 'n') + profile
     if key in _built:
         return _built[key]
-    tdir = os.path.join(CACHE, 'harness-target' + ('' if features_default else '-nodefault'))
-    cmd = ['cargo', 'build', '--release', '--offline', '--manifest-path', os.path.join(HARNESS_DIR, 'Cargo.toml'), '--target-dir', tdir]
+    tdir = os.path.join(CACHE, 'harness-target' + ('' if features_default else '-nodefault') + ('' if profile == 'release' else '-' + profile))
+    cmd = ['cargo', 'build', '--offline', '--manifest-path', os.path.join(HARNESS_DIR, 'Cargo.toml'), '--target-dir', tdir]
+    if profile == 'release':
+        cmd.insert(2, '--release')
     if not features_default:
         cmd += ['--no-default-features']
-    env = dict(ENV, RUSTFLAGS='--cfg lopdf_verif -C overflow-checks=on -C debug-assertions=on', LOPDF_PATH=REPO)
+    flags = '--cfg lopdf_verif -C overflow-checks=on -C debug-assertions=on' if profile == 'release' else '--cfg lopdf_verif'
+    env = dict(ENV, RUSTFLAGS=flags, LOPDF_PATH=REPO)
     p = subprocess.run(cmd, capture_output=True, text=True, env=env)
     if p.returncode != 0:
         _built[key] = (None, p.stderr[-3000:])
     else:
-        _built[key] = (os.path.join(tdir, 'release', 'lopdf-verif-harness'), '')
+        _built[key] = (os.path.join(tdir, 'release' if profile == 'release' else 'debug', 'lopdf-verif-harness'), '')
     return _built[key]
 
 
 def run_e3(pid, step, tier, seed):
     t0 = time.time()
-    out = dict(name='e3:' + step['cmd'] + (':no-default-features' if step.get('no_default_features') else ''), kind='e3', bounded=True, inconclusive=[], failures=[], evaluations=0, distinct_nontrivial=0,
+    out = dict(name='e3:' + step['cmd'] + (':no-default-features' if step.get('no_default_features') else '') + (':' + step['profile'] + '-profile' if step.get('profile') else ''), kind='e3', bounded=True, inconclusive=[], failures=[], evaluations=0, distinct_nontrivial=0,
                exhaustive=False, bound=step.get('bound', ''), samples=[], assumptions=[], trusted=[])
-    exe, err = harness_bin(not step.get('no_default_features'))
+    exe, err = harness_bin(not step.get('no_default_features'), step.get('profile', 'release'))
     if not exe:
         out['inconclusive'].append('harness build failed: ' + err[-1500:])
         out['wall'] = time.time() - t0
